@@ -211,10 +211,7 @@ Proof.
   destruct v as [| b | z | t | s | l | l]; simpl in H; try discriminate.
   - inversion H. reflexivity.
   - destruct b; inversion H; simpl; (split; [discriminate | split; [reflexivity | lia]]).
-  - destruct z as [|p|p]; try discriminate.
-    + inversion H. simpl. split; [discriminate | split; [reflexivity | lia]].
-    + destruct p as [p|p|]; try discriminate.
-      * destruct p; discriminate.
-      * destruct p; try discriminate. inversion H. simpl. split; [discriminate | split; [reflexivity | lia]].
-      * inversion H. simpl. split; [discriminate | split; [reflexivity | lia]].
+  - destruct z as [|[p|p|]|p]; simpl in H; try discriminate;
+      try (destruct p; simpl in H; try discriminate);
+      inversion H; simpl; (split; [discriminate | split; [reflexivity | lia]]).
 Qed.
